@@ -499,15 +499,29 @@ pub const HANG_TIMEOUT: Duration = Duration::from_secs(4);
 /// server side), then — unless `expect_upgraded` — a sentinel request whose reply marks "the
 /// connection is still open and everything before has been answered".
 pub fn run_socket(address: &str, log: &SharedLog, chunks: &[Vec<u8>], sentinel: Option<&[u8]>, sentinel_tok: &str, up_tok: Option<&str>) -> Obs {
+    run_socket_sync(address, log, chunks, sentinel, sentinel_tok, up_tok, None)
+}
+
+/// As run_socket; with `sync`, the caller's group of connections rendezvous after connecting (nobody has sent anything yet)
+/// and again before closing (everybody has waited for its replies while all the others were still open).
+pub fn run_socket_sync(address: &str, log: &SharedLog, chunks: &[Vec<u8>], sentinel: Option<&[u8]>, sentinel_tok: &str, up_tok: Option<&str>, sync: Option<&std::sync::Barrier>) -> Obs {
     let mut obs = Obs::default();
     let s = match AnyStream::connect(address) {
         Ok(s) => s,
         Err(e) => {
+            if let Some(b) = sync {
+                // the barrier must be passed by every member of the group, whatever happens
+                b.wait();
+                b.wait();
+            }
             obs.end = "connect-failed".into();
             obs.note = format!("{}", e);
             return obs;
         }
     };
+    if let Some(b) = sync {
+        b.wait();
+    }
     s.set_read_timeout(HANG_TIMEOUT);
     // a server that stopped reading (all its workers gone) must not block the driver forever
     s.set_write_timeout(HANG_TIMEOUT);
@@ -567,6 +581,12 @@ pub fn run_socket(address: &str, log: &SharedLog, chunks: &[Vec<u8>], sentinel: 
             let _ = w.write_all(sent);
         }
         first = rx.recv_timeout(HANG_TIMEOUT + Duration::from_secs(1)).unwrap_or("timeout");
+    } else if sync.is_some() {
+        // upgraded streams have no sentinel: give the replies time to arrive before the group closes
+        let _ = rx.recv_timeout(Duration::from_millis(300));
+    }
+    if let Some(b) = sync {
+        b.wait();
     }
     s.shutdown_write();
     let (all, status) = reader.join().unwrap();
